@@ -2,6 +2,7 @@ import GoCrypt.Gen.Facts
 import GoCrypt.Proofs.Base64
 import GoCrypt.Props.C16Decode
 import GoCrypt.Props.B64IR
+import GoCrypt.Props.StreamIR
 
 /-!
 # C16 — the little-endian base64 of crypt(3)
@@ -304,4 +305,16 @@ theorem exported_encodings :
 #print axioms GoCrypt.B64IR.decodeString_ir_eq_model
 #print axioms GoCrypt.B64IR.decodeString_ir_bytes
 
+-- the constructors (Props/B64IRCtor.lean): NewEncoding, WithPadding, Strict regenerated from the source build exactly the encoding value the theorems above are about
+-- (decodeMap = the model's table, fresh object, receiver unchanged) and panic exactly on the alphabets/padding runes the Go code rejects
+#print axioms GoCrypt.SIR.newEncoding_ir_eq_model
+#print axioms GoCrypt.SIR.newEncoding_ir_encAt
+#print axioms GoCrypt.SIR.newEncoding_ir_toB
+#print axioms GoCrypt.SIR.newEncoding_ir_panics
+#print axioms GoCrypt.SIR.withPadding_ir_eq_model
+#print axioms GoCrypt.SIR.withPadding_ir_keeps_receiver
+#print axioms GoCrypt.SIR.withPadding_ir_encAt
+#print axioms GoCrypt.SIR.withPadding_ir_panics
+#print axioms GoCrypt.SIR.strict_ir_eq_model
+#print axioms GoCrypt.SIR.strict_ir_encAt
 end GoCrypt.C16
